@@ -35,6 +35,7 @@ def make_params(draw):
 def make_grad(draw, gi, pi, t, shape, scale=1.0):
     """Gradient of parameter (gi, pi) at step t.  draw["grad_mode"]:
        "dense" (default)  generic random normal entries;
+       "striped"          during the first sparse_steps steps every other slice along one dimension is exactly zero;
        "sparse_first"     during the first draw.get("sparse_steps", 2) steps the gradient has ONE non-zero entry (every mode-wise Gram matrix
                           is then exactly diagonal or zero: the diagonal fast path and its later hand-over to the general path are exercised,
                           and most blocks see an exactly zero gradient); dense afterwards."""
@@ -45,6 +46,13 @@ def make_grad(draw, gi, pi, t, shape, scale=1.0):
         flat = torch.zeros(g.numel(), dtype=torch.float64)
         flat[k] = g.reshape(-1)[k]
         g = flat.view(g.shape)
+    if draw.get("grad_mode") == "striped" and t <= draw.get("sparse_steps", 2) and g.dim() >= 1:
+        # structured sparsity (pruning masks, frozen rows): every other slice along one dimension is exactly zero, so neighbouring
+        # slices are exactly orthogonal while non-neighbours are coupled (Gram matrices with zero first off-diagonals only)
+        dim = (draw["seed"] + gi + pi) % g.dim()
+        idx = [slice(None)] * g.dim()
+        idx[dim] = slice(1, None, 2)
+        g[tuple(idx)] = 0.0
     return g.to(DT[draw["dtype"]])
 
 
